@@ -387,6 +387,9 @@ pub fn run_batch(spec: &BatchSpec) -> BatchOut {
                     let end = (base + CHUNK).min(spec.runs);
                     for r in base..end {
                         let run = spec.first_run + r;
+                        if crate::core::skip_run(run) {
+                            continue;
+                        }
                         heartbeat();
                         if let Some(f) = &idx_file {
                             use std::os::unix::fs::FileExt;
@@ -421,6 +424,7 @@ pub fn run_batch(spec: &BatchSpec) -> BatchOut {
                             let gated = env.fails.iter().any(|f| f.prop == spec.gate_prop || f.prop == "HARNESS");
                             if gated {
                                 if out.found.len() < spec.max_found {
+                                    crate::core::note_found(run);
                                     out.found.push(Found { run_index: run, cfg: cfg.clone(), ops: ops.clone(), fails: env.fails.clone() });
                                 }
                                 if spec.stop_on_first {
